@@ -97,6 +97,7 @@ using std::chrono::milliseconds;
 
 // ====================================================================================== shared state
 static thread_local bool t_harness = false;        // true on every thread the harness itself creates (main, peer, senders)
+static thread_local bool t_inCallbackSend = false;   // the harness itself calls Transport::send from a callback on the I/O thread
 static thread_local int t_injErr = 0;              // SSL error the next SSL_get_error on this thread must report (injected)
 static TcpEngine *g_engine = nullptr;              // engine of the running case (null between cases)
 static std::atomic<int> g_sessFd{-1};              // fd of the (single) session of the case
@@ -345,9 +346,12 @@ extern "C" int SSL_read(SSL *ssl, void *buf, int num)
   int r;
   std::string res;
   bool inj = false;
-  if ((f.kind == 'r' || f.kind == 'a') && !SSL_has_pending(ssl))
+  if ((f.kind == 'r' || f.kind == 'a' || f.kind == 'w') && !SSL_has_pending(ssl))
   {
-    r = -1; inj = true; t_injErr = SSL_ERROR_WANT_READ; res = "r"; cnt("SSL_read_inj_want_read");
+    r = -1; inj = true;
+    t_injErr = f.kind == 'w' ? SSL_ERROR_WANT_WRITE : SSL_ERROR_WANT_READ;
+    res = f.kind == 'w' ? "w" : "r";
+    cnt(f.kind == 'w' ? "SSL_read_inj_want_write" : "SSL_read_inj_want_read");
   }
   else
   {
@@ -498,7 +502,7 @@ extern "C" int pthread_mutex_lock(pthread_mutex_t *m)
   mutex_lock_t real = g_realMutexLock;
   if (!real) { real = reinterpret_cast<mutex_lock_t>(dlsym(RTLD_NEXT, "pthread_mutex_lock")); g_realMutexLock = real; }
   int r = real(m);
-  if (!t_harness && g_engine && m == g_engine->_cmdMutex.native_handle())
+  if (!t_harness && !t_inCallbackSend && g_engine && m == g_engine->_cmdMutex.native_handle())
   {
     cnt("cmdMutex_io_locks");
     tok("S:" + std::to_string(g_engine->_cmds.size()));
@@ -557,6 +561,7 @@ struct Case
   long hsDelayUs = 0;
   std::vector<SendItem> sends;
   std::vector<PeerWrite> pw;
+  std::vector<PeerWrite> echo;     // payloads sent from INSIDE the data callback (I/O thread), one per callback, in order
   std::size_t peerChunk = 65536;
   long peerDelayUs = 0, peerStartUs = 0;
   long long peerCloseAfter = -1;   // peer closes its end after having read this many bytes
@@ -641,6 +646,17 @@ static bool parseCase(const std::vector<std::string> &t, Case &c)
         unsigned long long a, b, d;
         if (p.size() != 3 || !vh::parseNat(p[0], a) || !vh::parseNat(p[1], b) || !vh::parseNat(p[2], d)) return false;
         c.pw.push_back(PeerWrite{static_cast<std::size_t>(a), static_cast<unsigned>(b), static_cast<long>(d)});
+      }
+    }
+    else if (k == "echo")
+    {
+      if (v == "-") continue;
+      for (auto &it : splitc(v, ','))
+      {
+        auto p = splitc(it, '.');
+        unsigned long long a, b;
+        if (p.size() != 2 || !vh::parseNat(p[0], a) || !vh::parseNat(p[1], b) || a == 0) return false;
+        c.echo.push_back(PeerWrite{static_cast<std::size_t>(a), static_cast<unsigned>(b), 0});
       }
     }
     else if (k == "wf") { if (!parseSched(v, g_wf)) return false; }
@@ -797,12 +813,19 @@ static int listenLoopback(std::uint16_t &port)
 
 static std::mutex g_accMx;                     // the harness mutex around Transport::send / close / connect / stop: accepted order
 static std::vector<std::string> g_acc;
+static bool g_accSawClose = false;             // under g_accMx
+static std::atomic<std::size_t> g_expTotal{0}; // bytes of the Send commands accepted before the first accepted Close
+static void noteAcceptedSend(std::size_t len, unsigned pat)   // g_accMx held
+{
+  g_acc.push_back("S" + std::to_string(len) + "." + std::to_string(pat));
+  if (!g_accSawClose) g_expTotal.fetch_add(len);
+}
 
 struct Machinery : std::runtime_error { using std::runtime_error::runtime_error; };
 
 static void runCase(const Case &c, SSL_CTX *peerCli, SSL_CTX *peerSrv)
 {
-  g_segs.clear(); g_cur.clear(); g_acc.clear();
+  g_segs.clear(); g_cur.clear(); g_acc.clear(); g_accSawClose = false; g_expTotal.store(0);
   g_ioThreadKnown = false; g_foreignThread.store(false);
   g_sessFd.store(-1); g_sessDead.store(false); g_lastMask = 0; g_registered = false;
   g_waitIdx = 0; g_sslPendK = 0; g_sslPendBuf = nullptr; g_movedRetries = 0;
@@ -838,13 +861,26 @@ static void runCase(const Case &c, SSL_CTX *peerCli, SSL_CTX *peerSrv)
   std::atomic<std::size_t> deliveredN{0};
   t->onAccept([&](SessionId s, const TransportAddress &) { tok("Ca"); acceptedCb++; long long e = -1; sid.compare_exchange_strong(e, static_cast<long long>(s)); });
   t->onConnect([&](SessionId, const TransportAddress &) { tok("Cc"); connectedCb++; });
-  t->onData([&](SessionId, iora::core::BufferView d, std::chrono::steady_clock::time_point)
+  std::size_t echoIdx = 0;                  // I/O thread only
+  Transport *tp = t.get();
+  t->onData([&](SessionId sidArg, iora::core::BufferView d, std::chrono::steady_clock::time_point)
   {
     char b[64];
     std::snprintf(b, sizeof b, "Cd:%zu:%08x", d.size(), fnv(d.data(), d.size()));
     tok(b);
     delivered.insert(delivered.end(), d.data(), d.data() + d.size());
-    deliveredN.store(delivered.size());
+    if (echoIdx < c.echo.size())
+    {
+      // a send issued from inside the data callback, i.e. on the I/O thread itself
+      auto pl = mkPayload(c.echo[echoIdx].pat, c.echo[echoIdx].len);
+      std::lock_guard<std::mutex> g(g_accMx);
+      t_inCallbackSend = true;
+      bool ok = tp->send(sidArg, iora::core::BufferView{pl.data(), pl.size()});
+      t_inCallbackSend = false;
+      if (ok) noteAcceptedSend(c.echo[echoIdx].len, c.echo[echoIdx].pat);
+      ++echoIdx;
+    }
+    deliveredN.store(delivered.size());   // after the echo was accepted: the main thread's "all delivered" implies "all echoes counted"
   });
   t->onClose([&](SessionId, const TransportErrorInfo &r) { closeWhy = whyName(r); tok("Cx:" + closeWhy); closedCb++; });
 
@@ -922,14 +958,13 @@ static void runCase(const Case &c, SSL_CTX *peerCli, SSL_CTX *peerSrv)
           if (it.len == 0)
           {
             std::lock_guard<std::mutex> g(g_accMx);
-            if (t->close(s)) g_acc.push_back("C");
+            if (t->close(s)) { g_acc.push_back("C"); g_accSawClose = true; }
           }
           else
           {
             auto pl = mkPayload(it.pat, it.len);
             std::lock_guard<std::mutex> g(g_accMx);
-            if (t->send(s, iora::core::BufferView{pl.data(), pl.size()}))
-              g_acc.push_back("S" + std::to_string(it.len) + "." + std::to_string(it.pat));
+            if (t->send(s, iora::core::BufferView{pl.data(), pl.size()})) noteAcceptedSend(it.len, it.pat);
           }
         }
       });
@@ -937,22 +972,6 @@ static void runCase(const Case &c, SSL_CTX *peerCli, SSL_CTX *peerSrv)
   }
   for (auto &th : senders) th.join();
 
-  // expected stream = accepted Send payloads in accepted order (those before an accepted Close count; later ones are dropped by design)
-  std::vector<std::uint8_t> expect;
-  bool sawClose = false;
-  {
-    std::lock_guard<std::mutex> g(g_accMx);
-    for (auto &a : g_acc)
-    {
-      if (a == "C") sawClose = true;
-      if (a[0] == 'S' && !sawClose)
-      {
-        auto p = splitc(a.substr(1), '.');
-        auto pl = mkPayload(static_cast<unsigned>(std::stoul(p[1])), static_cast<std::size_t>(std::stoull(p[0])));
-        expect.insert(expect.end(), pl.begin(), pl.end());
-      }
-    }
-  }
   std::size_t pwTotal = 0;
   for (auto &w : c.pw) pwTotal += w.len;
 
@@ -966,7 +985,7 @@ static void runCase(const Case &c, SSL_CTX *peerCli, SSL_CTX *peerSrv)
   bool all = waitFor([&]
   {
     if (closedCb.load() > 0 || g_peerDone.load()) return true;
-    if (g_peerRx.load() >= expect.size() && g_peerWritesDone.load() && deliveredN.load() >= g_peerWritten.load()) return true;
+    if (g_peerRx.load() >= g_expTotal.load() && g_peerWritesDone.load() && deliveredN.load() >= g_peerWritten.load()) return true;
     std::size_t rx = g_peerRx.load() + deliveredN.load() + g_peerWritten.load();
     if (rx != lastRx) { lastRx = rx; lastMove = Clock::now(); }
     else if (Clock::now() - lastMove > milliseconds(c.lossy ? 150 : 4000)) { idleOut = !c.lossy; return true; }
@@ -981,10 +1000,12 @@ static void runCase(const Case &c, SSL_CTX *peerCli, SSL_CTX *peerSrv)
     while (closedCb.load() == 0 && Clock::now() < d2) sleepUs(200);
   }
   {
+    // the mutex is NOT held across stop(): a data callback that is about to send (echo) takes it on the I/O thread.
+    // A command accepted between this record and stop()'s own enqueue is trace-equivalent (Shutdown issues no call).
     std::lock_guard<std::mutex> g(g_accMx);
     g_acc.push_back("Q");
-    t->stop();
   }
+  t->stop();
   g_engine = nullptr;
   newSegment();
   // after stop() the session is closed: the peer sees EOF
@@ -994,6 +1015,21 @@ static void runCase(const Case &c, SSL_CTX *peerCli, SSL_CTX *peerSrv)
   peer.join();
   if (ls >= 0) ::close(ls);
 
+  // expected stream = accepted Send payloads in accepted order (those before an accepted Close; later ones are dropped by design)
+  std::vector<std::uint8_t> expect;
+  {
+    bool sawClose = false;
+    for (auto &a : g_acc)
+    {
+      if (a == "C") sawClose = true;
+      if (a[0] == 'S' && !sawClose)
+      {
+        auto p = splitc(a.substr(1), '.');
+        auto pl = mkPayload(static_cast<unsigned>(std::stoul(p[1])), static_cast<std::size_t>(std::stoull(p[0])));
+        expect.insert(expect.end(), pl.begin(), pl.end());
+      }
+    }
+  }
   auto firstDiff = [](const std::vector<std::uint8_t> &got, const std::vector<std::uint8_t> &want) -> long long
   {
     std::size_t n = std::min(got.size(), want.size());
